@@ -90,6 +90,16 @@ pub fn c10_native<G: AffineRepr>(case: &IppCase, seed: u64, model: HashMap<Strin
         let mut vt = Transcript::new(b"ipp-verif");
         out.push((format!("claimed length {} with {} rounds rejected", bad, case.k), proof.verif_verification_scalars(bad, &mut vt).is_err()));
     }
+    // a forged last round point that would balance a wrong product if the round challenge did not depend on R
+    if !degenerate && case.mode != "degenerate" && case.k >= 1 && us.len() == case.k {
+        let uk = us[case.k - 1];
+        let mut r2 = R.clone();
+        r2[case.k - 1] = (R[case.k - 1].into_group() - Q * (uk * uk)).into_affine();
+        let forged = InnerProductProof::verif_from_parts(L.clone(), r2, pa, pb);
+        let wrongP: G = (P.into_group() + Q.into_group()).into_affine();
+        let mut vt = Transcript::new(b"ipp-verif");
+        out.push(("a proof whose last R is shifted by -u_k^2 Q (old challenge) is rejected against P + Q".into(), forged.verify(n, &mut vt, gf.iter(), hf.iter(), &wrongP, &Q, &Gs, &Hs).is_err()));
+    }
     // negative cases on the honest proof (unchanged challenges): wrong P, wrong product, shifted a / b
     if !degenerate && case.mode != "degenerate" {
         let d = G::ScalarField::from(7u64);
@@ -117,7 +127,12 @@ pub fn c13_native<G: AffineRepr>(variant: &str, seed: u64, model: HashMap<String
         PedersenGens { B: G::Group::rand(&mut rng).into_affine(), B_blinding: G::Group::rand(&mut rng).into_affine() }
     };
     let mut vals = PlainVals::<G::ScalarField>::new(model, seed);
-    let lit = |s: &str| -> G::ScalarField { G::ScalarField::from_str(s).ok().unwrap() };
+    let lit = |s: &str| -> G::ScalarField {
+        match s.strip_prefix('-') {
+            Some(r) => -G::ScalarField::from_str(r).ok().unwrap(),
+            None => G::ScalarField::from_str(s).ok().unwrap(),
+        }
+    };
     let sets: Vec<[G::ScalarField; 5]> = if variant.ends_with("literals") {
         crate::scen_c10::c13_literal_sets().iter().map(|s| [lit(s[0]), lit(s[1]), lit(s[2]), lit(s[3]), lit(s[4])]).collect()
     } else {
@@ -133,6 +148,8 @@ pub fn c13_native<G: AffineRepr>(variant: &str, seed: u64, model: HashMap<String
         let mut prover = Prover::new(&pc, &mut pt);
         let (V, _) = prover.commit(v1, r1);
         out.push((format!("set{}: Prover::commit = v*B + r*Bblind", i), V.into_group() == refc(v1, r1)));
+        let (V2, _) = prover.commit(v1 + G::ScalarField::from(3u64), r1);
+        out.push((format!("set{}: second Prover::commit with the same blinding and another value", i), V2.into_group() == refc(v1 + G::ScalarField::from(3u64), r1)));
     }
     out.push(("commit(0,0) is the identity".into(), pc.commit(G::ScalarField::zero(), G::ScalarField::zero()).is_zero()));
     out
@@ -188,7 +205,7 @@ pub fn c07_native<G: AffineRepr + 'static>(case: &crate::scen_c07::BatchCase, se
         let shr = new_shared::<G>(&inst.shape, &Default::default(), Box::new(PlainVals::<G::ScalarField>::new(HashMap::new(), seed + i as u64)));
         let (p, _) = prove_shape(&inst.shape, &shr, &pc, &bp, seed + i as u64);
         match p {
-            Ok(p) => proofs.push(p),
+            Ok(p) => proofs.push(crate::scen_c07::spoil(&p, &inst.kind)),
             Err(_) => {
                 out.push((format!("instance {} proves", i), false));
                 return out;
@@ -216,7 +233,7 @@ pub fn c07_native<G: AffineRepr + 'static>(case: &crate::scen_c07::BatchCase, se
     };
     let shapes: Vec<Shape> = case.instances.iter().map(|i| i.shape.clone()).collect();
     let b_ok = run_batch(&proofs, &shapes, &shrs);
-    out.push((format!("honest batch: batch verdict {} equals conjunction of individual verdicts {:?}", b_ok, indiv), b_ok == indiv.iter().all(|x| *x)));
+    out.push((format!("batch (members honest unless marked otherwise in the case): batch verdict {} equals conjunction of individual verdicts {:?}", b_ok, indiv), b_ok == indiv.iter().all(|x| *x)));
     // (b) correlated offsets on copies of the first member's proof
     let mut offset_sets: Vec<Vec<G::ScalarField>> = vec![];
     let from_model: Vec<Option<G::ScalarField>> = (0..k).map(|i| model.get(&format!("d{}", i)).and_then(|s| crate::job::parse_rational::<G::ScalarField>(s))).collect();
@@ -320,6 +337,13 @@ pub fn c09_native<G: AffineRepr + 'static>(shape: &crate::r1cs::Shape, seed: u64
         return out;
     }
     let rid = u64::from_le_bytes(build[0].data[..8].try_into().unwrap());
+    {
+        let main: Vec<&merlin::vlog::Event> = log.iter().filter(|e| e.obj == pobj).collect();
+        let bpos = main.iter().position(|e| e.op == "build_rng");
+        let mpos = main.iter().position(|e| e.op == "append" && e.label == b"m");
+        let apos = main.iter().position(|e| e.op == "append" && e.label == b"A_I1");
+        out.push(("the RNG is forked after the commitments and their count are absorbed and before the first message".into(), matches!((bpos, mpos, apos), (Some(b), Some(mm), Some(a)) if mm < b && b < a)));
+    }
     let rops: Vec<&merlin::vlog::Event> = log.iter().filter(|e| e.obj == rid).collect();
     let rekeys: Vec<&&merlin::vlog::Event> = rops.iter().filter(|e| e.op == "rekey").collect();
     let mut keyed = rekeys.len() == m;
@@ -386,7 +410,7 @@ pub fn c09_native<G: AffineRepr + 'static>(shape: &crate::r1cs::Shape, seed: u64
 
 /// Differential run against the pinned reference protocol (C03 replay, C18): both provers against
 /// both verifiers, plus adversarial reference provers, plus the generator derivation.
-pub fn diff_native<G: AffineRepr + 'static>(shape: &crate::r1cs::Shape, seed: u64) -> Checks {
+pub fn diff_native<G: AffineRepr + 'static>(shape: &crate::r1cs::Shape, seed: u64, torsion: Option<Vec<G>>) -> Checks {
     use crate::r1cs::*;
     use crate::refimpl::*;
     let mut out: Checks = vec![];
@@ -418,6 +442,9 @@ pub fn diff_native<G: AffineRepr + 'static>(shape: &crate::r1cs::Shape, seed: u6
     if n1 + n2 <= 1 {
         knobs.push(Knob::SurplusRound);
     }
+    if n1 == 0 {
+        knobs.push(Knob::ZeroBlindPhase1);
+    }
     for knob in knobs {
         let shr = fresh(seed + 17);
         match ref_prove(shape, &shr, B, Bb, &Gs, &Hs, seed, knob.clone()) {
@@ -428,6 +455,9 @@ pub fn diff_native<G: AffineRepr + 'static>(shape: &crate::r1cs::Shape, seed: u6
                 let mut vt = new_verifier_transcript(shape);
                 let iv = build_verifier(shape, &shr, &mut vt).verify(&p, &pc, &bp).is_ok();
                 let expect = matches!(knob, Knob::Honest | Knob::BlindedPhase2);
+                if knob == Knob::ZeroBlindPhase1 && !(p.verif_parts().0[0].is_zero()) {
+                    continue;
+                }
                 out.push((format!("reference prover ({:?}): reference verifier says {} (expected {})", knob, rv, expect), rv == expect));
                 out.push((format!("reference prover ({:?}): implementation's verdict {} equals the reference verdict {}", knob, iv, rv), iv == rv));
             }
@@ -435,6 +465,22 @@ pub fn diff_native<G: AffineRepr + 'static>(shape: &crate::r1cs::Shape, seed: u6
                 if knob == Knob::Honest {
                     out.push(("reference prover ran".into(), false));
                 }
+            }
+        }
+    }
+    // cofactor curves: an honest prover whose A_I1 carries a small-order component
+    if let Some(ts) = &torsion {
+        for (ti, t) in ts.iter().enumerate() {
+            let shr = fresh(seed + 23 + ti as u64);
+            if let Some(p) = ref_prove_shifted(shape, &shr, B, Bb, &Gs, &Hs, seed, Knob::Honest, Some(*t)) {
+                rewind_for_verifier(&shr);
+                let rv = ref_verify(shape, &shr, B, Bb, &Gs, &Hs, &p);
+                rewind_for_verifier(&shr);
+                let mut vt = new_verifier_transcript(shape);
+                let iv = build_verifier(shape, &shr, &mut vt).verify(&p, &pc, &bp).is_ok();
+                // (the defect x*T of the opening relation vanishes when the order of T divides x: both verdicts
+                // are then "accept"; what must hold is that the two verdicts coincide)
+                out.push((format!("prover with a small-order component (#{}) on A_I1: the implementation's verdict {} equals the unbatched relations' verdict {}", ti, iv, rv), iv == rv));
             }
         }
     }
